@@ -198,6 +198,21 @@ theorem mkCond_frag {cc ct cf : Code} {j : Int → Instr} {s s1 s' : List S.V} {
       Frag.jumpOver (by simp [hj, Instr.size])
     simpa using (hcc.append f2).append (hf rfl)
 
+theorem evalList_length : ∀ (args : List Expr) (w : S.W) (vs : List S.V) (w' : S.W),
+    evalList S args w = some (vs, w') → vs.length = args.length
+  | [], w, vs, w', h => by
+    simp only [evalList, Option.some.injEq, Prod.mk.injEq] at h
+    obtain ⟨rfl, rfl⟩ := h; rfl
+  | e :: es, w, vs, w', h => by
+    simp only [evalList, Option.bind_eq_bind, Option.bind_eq_some_iff, Prod.exists, Option.some.injEq, Prod.mk.injEq] at h
+    obtain ⟨v, w1, he, vs', w2, hes, rfl, rfl⟩ := h
+    simp [evalList_length es w1 vs' w2 hes]
+
+/-- an expression list pushes its values left to right -/
+def ListSpec (S : Sem) (es : List Expr) : Prop :=
+  ∀ s w vs w', evalList S es w = some (vs, w') → Frag S (cEs es) s w (vs.reverse ++ s) w'
+
+mutual
 theorem expr_all (L : Laws S) : ∀ e, All S e
   | .num c => All.mk' (by nc) (by
       intro s w v w' h
@@ -568,5 +583,55 @@ theorem expr_all (L : Laws S) : ∀ e, All S e
             sl [hk.getArr L, hk.setArr L, hx]
           exact f1.append f2
       | _ => simp [eval] at h) trivial
+
+  | .call f nsc args arrs => All.mk' (by nc) (by
+      intro s w v w' h
+      eval_inv h
+      obtain ⟨vs, w1, hargs, hcall⟩ := h
+      have hl := evalList_length args w vs w1 hargs
+      have hc : cExpr (.call f nsc args arrs) =
+          cEs args ++ (if args.length < nsc then [Instr.nulls (nsc - args.length)] else []) ++ [.callUser f nsc arrs] := by
+        simp [cExpr, cE]
+      rw [hc]
+      have f1 : Frag S (cEs args) s w (vs.reverse ++ s) w1 := exprs_all L args s w vs w1 hargs
+      by_cases hle : vs.length ≤ nsc
+      · rw [if_pos hle] at hcall
+        have f2 : Frag S (if args.length < nsc then [Instr.nulls (nsc - args.length)] else []) (vs.reverse ++ s) w1
+            (List.replicate (nsc - vs.length) S.nullV ++ (vs.reverse ++ s)) w1 := by
+          by_cases hlt : args.length < nsc
+          · rw [if_pos hlt, hl]; sl
+          · rw [if_neg hlt]
+            have : nsc - vs.length = 0 := by omega
+            rw [this]; simpa using Frag.nil (vs.reverse ++ s) w1
+        have f3 : Frag S [.callUser f nsc arrs] (List.replicate (nsc - vs.length) S.nullV ++ (vs.reverse ++ s)) w1 (v :: s) w' := by
+          have hX : (List.replicate (nsc - vs.length) S.nullV ++ vs.reverse).length = nsc := by simp; omega
+          have hst : List.replicate (nsc - vs.length) S.nullV ++ (vs.reverse ++ s) =
+              (List.replicate (nsc - vs.length) S.nullV ++ vs.reverse) ++ s := by simp
+          have ht := List.take_left' (l₂ := s) hX
+          have hd := List.drop_left' (l₂ := s) hX
+          apply Frag.sl
+          rw [hst]
+          simp only [execSL, ex_callUser]
+          rw [if_pos (by rw [List.length_append]; omega), ht, hd]
+          simp [hcall]
+        exact (f1.append f2).append f3
+      · rw [if_neg hle] at hcall; simp at hcall) trivial
+
+theorem exprs_all (L : Laws S) : ∀ es, ListSpec S es
+  | [] => by
+    intro s w vs w' h
+    simp only [evalList, Option.some.injEq, Prod.mk.injEq] at h
+    obtain ⟨rfl, rfl⟩ := h
+    simpa [cEs] using Frag.nil s w
+  | e :: es => by
+    intro s w vs w' h
+    simp only [evalList, Option.bind_eq_bind, Option.bind_eq_some_iff, Prod.exists, Option.some.injEq, Prod.mk.injEq] at h
+    obtain ⟨v, w1, he, vs', w2, hes, rfl, rfl⟩ := h
+    have f1 : Frag S (cExpr e) s w (v :: s) w1 := (expr_all L e).1 _ _ _ _ he
+    have f2 := exprs_all L es (v :: s) w1 vs' w2 hes
+    have hc : cEs (e :: es) = cExpr e ++ cEs es := by simp [cEs, cExpr]
+    rw [hc]
+    simpa using f1.append f2
+end
 
 end GoawkModel.C01
